@@ -143,6 +143,9 @@ def main(argv=None) -> int:
             mod.run(ctx)
         except InfraError:
             raise
+        except Exception as e:  # noqa: BLE001 - harness code choked on what the real code returned
+            tb = traceback.format_exc().strip().splitlines()[-8:]
+            ctx.corr_diff("harness-exception:run", dict(note="the run was cut short"), f"{type(e).__name__}: {e}", tb)
         # obligations / correspondence broken and no concrete failing input yet: deepen
         broken = bool(binfo.broken) or ctx.n_corr_diffs > 0
         known = load_known(prop)
